@@ -22,6 +22,16 @@ models/solid_c16.py.  Work items:
  sizes  |A u B| + |A n B| = |A| + |B| and |A - B| + |A n B| = |A| for concrete results.
  proj   projectVector(p, onDirection=d) = nearest hit along +-d, 6 axis directions, on
         box / spheroid / non-convex mesh volume / mesh surface.
+ hist   regions are semantically immutable: for the kinds that carry caches or lazily
+        computed state (PolygonalFootprintRegion's cached vertical slab, also reached
+        through PolygonalRegion.footprint; mesh volumes; point sets; paths; composed
+        regions) ALL sequences of <= 2 (quick) / <= 3 (thorough) prior (operation,
+        partner) pairs are run on ONE subject object - partners inside / across the top /
+        across the bottom / above / below the cached slab, small and large, translated -
+        followed by a probe query, in both operand positions.  The probe's answer
+        (membership on a probe set, AABB, intersects, distances) must equal the answer of
+        a fresh object and the analytic expectation.  The slab cache lookups are observed
+        harness-side; reuse, replacement and straddling requests must all occur.
 
 Probes closer than the margin (1e-3 of the joint bounding-box diagonal, plus the band of
 the polyhedral approximation of curved kinds) to an operand's boundary are skipped and
@@ -867,6 +877,7 @@ HIST_PARTNERS = {
     "high": _box(100.0),  # inside the slab of 'low'; its own slab is 100 times wider
     "top": _box(226.5, dims=(3.0, 2.0, 20.0)),  # across the top of the slab of 'low'
     "bottom": _box(-223.5, dims=(3.0, 2.0, 20.0)),  # across its bottom
+    "above-top": _box(227.8),  # entirely above that slab, but the padded request (226.3..229.3) dips into it
     "neg": _box(-300.0),  # below it; caches a narrow slab [-450, -150]
     "far": _box(1000.0),  # above it
     "vfar": _box(20000.0),  # above the slab of 'high' ([-14900, 15100])
@@ -894,6 +905,7 @@ def hist_subjects(tier):
         ("B", "intersect", "top"),
         ("B", "difference", "top"),
         ("B", "intersects", "top"),
+        ("B", "intersects", "above-top"),
         ("A", "intersect", "top"),
         ("B", "intersect", "bottom"),
         ("B", "intersects", "cube-surface"),
@@ -914,7 +926,7 @@ def hist_subjects(tier):
     return {
         "footprint": (HIST_FP, None, fp_priors, fp_probes),
         # the footprint object that a polygon hands out must be the same stateful object
-        "polygon.footprint": (poly, "footprint", fp_priors[:3], fp_probes[:3] + fp_probes[6:7]),
+        "polygon.footprint": (poly, "footprint", fp_priors[:3], fp_probes[:4] + fp_probes[7:8]),
         "meshvol": (MESH_U, None, mesh_priors, mesh_probes),
         "pset": (HIST_PARTNERS["pset"], None, small_priors[:3], small_probes[:4]),
         "path": (HIST_PARTNERS["path"], None, small_priors, small_probes),
@@ -1370,6 +1382,8 @@ def run(ctx):
         "PolylineRegion and GridRegion live at z = 0 (the constructors drop other heights)",
         "curved kinds are judged outside a band around the boundary (icosphere 0.6 %, 128-gon 0.05 % of the radius)",
         "trimesh / manifold3d / shapely are deterministic for fixed inputs",
+        "history items: the partners' heights are chosen from the padding rule of approxBoundFootprint (100 * max(1, centerZ) * height) only to "
+        "place them relative to the cached slab; the expected answers come from fresh objects and the analytic oracle",
     ]
 
 
